@@ -643,6 +643,11 @@ def _gen_once(rng: random.Random) -> dict:
             readmes.append(r2)
             feats.add("multiple_readmes")
 
+    # an exclude rule that happens to match the readme / licence: they stay in the sdist all the same (C09-1)
+    if p(0.15):
+        exclude.append(rng.choice(["**/*.md", "*.md", "README*", "LICEN*", "**/*.txt", "**/*.rst", "COPYING*", "docs/**/*"]))
+        feats.add("exclude_matching_project_files")
+
     # ---- metadata tables -------------------------------------------------------
     desc = rng.choice(["A demo", "Ünïcode: colons, commas <angle>", "x" * 70, "", "tabs\tand 'quotes' \"dq\""])
     ep_target = f"{module}:main"
